@@ -192,6 +192,7 @@ def work(unit):
     case = {"scenario": name, "threads": SCENARIOS[name][0], "cache": SCENARIOS[name][1], "backend": SCENARIOS[name][2],
             "visible": unit["visible"], "bound": unit["bound"]}
     # determinism: the default schedule twice must give the same sequence of scheduling decisions
+    ex.execute([])  # warm-up: first-use initialisation (dispatch caches, lazy imports) is not part of the scenario
     e1, _ = ex.execute([])
     e2, _ = ex.execute([])
     if [(k, r) for k, r, _ in e1.points] != [(k, r) for k, r, _ in e2.points]:
